@@ -172,7 +172,14 @@ R_C05_obj(S, v, kind, out, dobs) ==
          IN HasKey(v, src) \/
             IF ~IsBoolSchema(ps) /\ Has(ps, "default") THEN
                /\ OHas(out, nm)
-               /\ LET ok == Allowed(ps, ps.default) IN
+               /\ LET (* the member is governed by the property's schema AND by every pattern
+                          that matches its JSON name: "valid" means valid for all of them *)
+                      pats == IF Has(S, "patternProperties") THEN S.patternProperties ELSE <<>>
+                      ok == ConjSets(<< Allowed(ps, ps.default) >>
+                                     \o [i \in 1..Len(pats) |->
+                                          IF Match(pats[i][1], src) THEN Allowed(pats[i][2], ps.default)
+                                          ELSE {TRUE}])
+                  IN
                   /\ (ok = {TRUE}  => (PairsHasKey(dobs, src) /\ PairsGet(dobs, src).kind = "ok"
                                        /\ ResEq(OGet(out, nm), PairsGet(dobs, src).out)))
                   /\ (ok = {FALSE} => RawSame(ps.default, OGet(out, nm)))
